@@ -63,11 +63,15 @@ func VF_C17_parity() {
 	t := vfStr("type", 3)
 	vfAssume(vfInRe(t, `\A\*?[A-Z][a-z]?\z`))
 	ctor, val, deco := "upkg.CtorMarker", "upkg.ValueMarker{}", "upkg.DecoMarker"
+	gu := "Untyped"
+	vfAssume(g != gu && g != gu+"InContext" && g != "Must"+gu && g != "Must"+gu+"InContext" && gu != g+"InContext")
 	in := input.Input{
 		Meta: input.Meta{Functions: map[string]string{"fn": "upkg.FnMarker"}},
 		Services: map[string]input.Service{
 			"a": {Constructor: &ctor, Getter: &g, Type: &t, MustGetter: vfTri("must"), Tags: []input.Tag{{Name: "t"}}},
 			"b": {Value: &val},
+			// a getter without a declared type (interface{})
+			"c": {Constructor: &ctor, Getter: &gu},
 		},
 		Params:     map[string]any{"p": "%fn()%"},
 		Decorators: []input.Decorator{{Tag: "t", Decorator: deco}},
